@@ -334,6 +334,8 @@ where
 
     #[inline(always)]
     fn set_unrounded_layout(&mut self, node_id: NodeId, layout: &Layout) {
+        #[cfg(taffy_verif)]
+        crate::verif_hooks::emit(crate::verif_hooks::Event::SetLayout { node: node_id });
         self.taffy.nodes[node_id.into()].unrounded_layout = *layout;
     }
 
